@@ -354,6 +354,13 @@ class GSem:
         self.name = name
         self.value = value
         gate.sems[name] = self
+        self._semlock = self            # _is_zero / _get_value: plain reads (local expressions in the model)
+
+    def _is_zero(self):
+        return self.value == 0
+
+    def _get_value(self):
+        return self.value
 
     def acquire(self, block=True, timeout=None):
         def fn(step):
